@@ -1269,6 +1269,20 @@ pub fn emit_crate<'tcx>(tcx: TyCtxt<'tcx>, name: &str, out_dir: &str) {
             _ => {}
         }
     }
+    {
+        let mut have: FxHashSet<LocalDefId> = local_fn_defs.iter().copied().collect();
+        let mut extra: Vec<LocalDefId> = mir_keys
+            .iter()
+            .copied()
+            .filter(|l| matches!(tcx.def_kind(l.to_def_id()), DefKind::Fn | DefKind::AssocFn | DefKind::Closure))
+            .filter(|l| !have.contains(l))
+            .collect();
+        extra.sort_by_key(|l| tcx.def_path_str(l.to_def_id()));
+        for l in extra {
+            have.insert(l);
+            local_fn_defs.push(l);
+        }
+    }
     root.set("consts", consts);
     root.set("impls", J::Arr(impls));
     root.set("statics", J::Arr(statics));
